@@ -200,6 +200,39 @@ Theorem C14_executable_is_model : forall ord_n ord_u ord_q fit nearb line skip,
 Proof. exact corridor_exec_equiv. Qed.
 Print Assumptions C14_executable_is_model.
 
+(* ---- the measuring loop replayed (measured mode compared by equality at run time) ---- *)
+(* the executable instance with the STATEFUL measuring loop has the model's error flag and, up to order, its result — for every map order
+   and every state-dependent measure *)
+Theorem C14_stateful_executable_is_model : forall ord_n ord_u ord_q fit St st0 measure line skip,
+  (forall l, Permutation (ord_n l) l) -> (forall l, Permutation (ord_u l) l) -> (forall l, Permutation (ord_q l) l) ->
+  match corridor_run fit St st0 measure line skip, corridor ord_n ord_u ord_q fit St st0 measure line skip with
+  | Ok r, Ok r' => Permutation r r'
+  | Err, Err => True
+  | _, _ => False
+  end.
+Proof. exact corridor_run_equiv. Qed.
+Print Assumptions C14_stateful_executable_is_model.
+(* what the loop keeps depends on the candidates only through their multiset (they are sorted first), whatever the measure does with its state *)
+Theorem C14_kept_determined_by_candidate_multiset : forall St (measure : St -> string -> result (bool * St)) st0 c c',
+  Permutation c c' -> measure_all St measure st0 (sort_strings c) = measure_all St measure st0 (sort_strings c').
+Proof. exact measure_all_sorted_perm. Qed.
+Print Assumptions C14_kept_determined_by_candidate_multiset.
+(* the measured run = line IDs (always kept) + what the loop keeps of `candidates`, the list that is sent to the real loop *)
+Theorem C14_measured_run_is_line_plus_kept : forall fit St st0 measure L r, corridor_run fit St st0 measure (Ok L) false = Ok r ->
+  exists kept, measure_all St measure st0 (candidates fit (Ok L)) = Ok kept /\
+    NoDup r /\ (forall s, In s r <-> In s kept \/ In s L) /\ (forall s, In s kept -> In s (candidates fit (Ok L)) /\ ~ In s L).
+Proof. exact corridor_run_measured. Qed.
+Print Assumptions C14_measured_run_is_line_plus_kept.
+Theorem C14_measured_run_subset_skipped_run : forall fit St st0 measure line r, corridor_run fit St st0 measure line false = Ok r ->
+  exists r', corridor_run fit St st0 measure line true = Ok r' /\ forall s, In s r -> In s r'.
+Proof. exact corridor_run_measured_subset. Qed.
+Print Assumptions C14_measured_run_subset_skipped_run.
+(* the run-time measure: replaying the recorded distances keeps exactly the candidates whose recorded distance is below the radius *)
+Theorem C14_replay_keeps_recorded_below_radius : forall radius cs ds, List.length ds = List.length cs ->
+  measure_all _ (replay radius) (map Ok ds) cs = Ok (map fst (filter (fun p => (snd p <? radius)%float) (combine cs ds))).
+Proof. exact replay_all. Qed.
+Print Assumptions C14_replay_keeps_recorded_below_radius.
+
 (* "prop failed" means the property fails: what the boolean checker accepts on the implementation's output *)
 Theorem C14_checker_sound : forall l h v zero H V o, okids l -> 0 <= H -> 0 <= V ->
   check_corridor h v zero (map print_eid l) H V o = true ->
@@ -235,6 +268,14 @@ Example C14_nonvacuous_measured_none_near :
 Proof. vm_compute. reflexivity. Qed.
 Example C14_nonvacuous_zero : corridor_exec (ex_fit 0 0) (fun _ => true) (Ok ex_line) true = Ok ex_line.
 Proof. vm_compute. reflexivity. Qed.
+(* replayed loop: the 34 candidates of the one-layer box get recorded distances 10, 20, 10, 20, ...; radius 15 keeps every other one *)
+Example C14_nonvacuous_replay :
+  let cs := candidates (ex_fit 1 1) (Ok ex_line) in
+  let ds := map (fun k => if Nat.even k then 10%float else 20%float) (seq 0 (List.length cs)) in
+  List.length cs = 34%nat /\
+  match corridor_run (ex_fit 1 1) _ (map Ok ds) (replay 15%float) (Ok ex_line) false with Ok r => List.length r = 19%nat | Err => False end /\
+  corridor_run (ex_fit 1 1) _ [] (replay 15%float) (Ok ex_line) false = Err.
+Proof. vm_compute. repeat split; reflexivity. Qed.
 Example C14_nonvacuous_checker :
   match corridor_exec (ex_fit 1 1) (fun _ => false) (Ok ex_line) true with
   | Ok r => check_corridor 20 20 false ex_line 1 1 r = true /\ check_corridor 20 20 false ex_line 0 0 r = false
